@@ -352,6 +352,20 @@ def _sp_aslist(ex, node, st):
     return PyTuple([v], True)
 
 
+def _sp_count(ex, node, st):
+    """count(xs, v, n): number of i < n with xs[i] == v (n defaults to len)"""
+    xs = ex.ev(node.args[0], st)
+    v  = ex.ev(node.args[1], st)
+    ty = xs.ty
+    n  = ex.as_int(st, ex.ev(node.args[2], st)) if len(node.args) > 2 \
+         else ty.len(xs.term)
+    key = 'count:' + ty.key
+    if key not in ex.__dict__.setdefault('_axiom_keys', set()):
+        ex._axiom_keys.add(key)
+        ex.axioms.extend(count_axioms(ty))
+    return Val(TInt, count_fn(ty)(ty.arr(xs.term), coerce(v, ty.elem).term, n))
+
+
 def _sp_implies(ex, node, st):
     a = truthy(ex.ev(node.args[0], st))
     saved = list(st.guards)
@@ -447,7 +461,7 @@ def _sp_lookup(ex, node, st):
     return ex.subscript(m, k, st)
 
 
-_SPEC_PRIMS = {'old': _sp_old, 'aslist': _sp_aslist, 'at_head': _sp_at_head, 'implies': _sp_implies, 'iff': _sp_iff,
+_SPEC_PRIMS = {'old': _sp_old, 'count': _sp_count, 'aslist': _sp_aslist, 'at_head': _sp_at_head, 'implies': _sp_implies, 'iff': _sp_iff,
                'forall': _sp_forall, 'exists': _sp_exists,
                'bound': _sp_bound, 'is_some': _sp_some, 'val': _sp_val,
                'ite': _sp_ite, 'indom': _sp_domain, 'at': _sp_lookup,
